@@ -43,6 +43,15 @@ Theorem C08_async_complete :
       = yields k script.
 Proof. exact AsyncLaws.async_complete_gen. Qed.
 
+(* ... likewise a future: its value and the completion (or its error) once it has been polled more often than it answers
+   "not ready" ... *)
+Theorem C08_future_complete :
+  forall k, (k = AFuture \/ k = AFutureResult) ->
+    forall n script, (AsyncLaws.waits k script < n)%nat ->
+      AsyncLaws.outs (arun' k {| a_script := script; a_finished := false; a_keep := true; a_value := false |} (repeat APoll n))
+      = yields k script.
+Proof. exact AsyncLaws.future_complete. Qed.
+
 (* ... and nothing after unsubscribe() *)
 Theorem C08_async_silent_after_unsub :
   forall k ls s, a_keep s = false -> AsyncLaws.outs (arun' k s ls) = [].
@@ -59,6 +68,10 @@ Check C08_async_complete : forall k, (k = AStream \/ k = AStreamResult) ->
     forall n script, (pendings script < n)%nat ->
       AsyncLaws.outs (arun' k {| a_script := script; a_finished := false; a_keep := true; a_value := false |} (repeat APoll n))
       = yields k script.
+Check C08_future_complete : forall k, (k = AFuture \/ k = AFutureResult) ->
+    forall n script, (AsyncLaws.waits k script < n)%nat ->
+      AsyncLaws.outs (arun' k {| a_script := script; a_finished := false; a_keep := true; a_value := false |} (repeat APoll n))
+      = yields k script.
 Check C08_async_silent_after_unsub : forall k ls s, a_keep s = false -> AsyncLaws.outs (arun' k s ls) = [].
 
 Print Assumptions C08_interval.
@@ -67,6 +80,7 @@ Print Assumptions C08_interval_prompt.
 Print Assumptions C08_timer.
 Print Assumptions C08_async_prefix.
 Print Assumptions C08_async_complete.
+Print Assumptions C08_future_complete.
 Print Assumptions C08_async_silent_after_unsub.
 
 Example C08_example_interval_late_run :
@@ -79,3 +93,8 @@ Example C08_example_interval_at :
   run_timed (TIntervalAt 3 10) [LRun 0; LAdv 3; LRun 0; LAdv 10; LRun 0]
   = [TMark 0; TMark 1; TMark 2; TOut 3 (Next (VZ 0)); TMark 3; TMark 4; TOut 13 (Next (VZ 1))].
 Proof. vm_compute. reflexivity. Qed.
+
+Example C08_example_future :
+  AsyncLaws.outs (run_async AFutureResult [PPending; PPending; PItem (VZ 7)] [APoll; APoll; APoll; APoll]) = [Next (VZ 7); Done] /\
+  AsyncLaws.outs (run_async AFutureResult [PPending; PFail 3] [APoll; APoll; APoll]) = [Err 3].
+Proof. vm_compute. split; reflexivity. Qed.
